@@ -115,6 +115,8 @@ def run(ck, tier):
     _acc2.run2(ck, F, 'C13')
     from . import relations as _rel
     _rel.run(ck, F, 'C13')
+    from . import guards as _grd
+    _grd.run(ck, F, 'C13')
     from . import accum as _acc
     _acc.run(ck, F, 'C13')
     from . import c13x
